@@ -46,6 +46,11 @@ class SessionCache(object):
         #Circular list of (sessionID, timestamp) pairs
         self.entriesList = [(None,None)] * maxEntries
 
+        # Maps sessionIDs to the timestamp of the list entry that currently
+        # owns the ID (an ID may be stored again while an older list entry
+        # for it still waits for its expiry or eviction)
+        self._entryTimes = {}
+
         self.firstIndex = 0
         self.lastIndex = 0
         self.maxAge = maxAge
@@ -73,17 +78,26 @@ class SessionCache(object):
         self.lock.acquire()
         try:
             #Add the new element
-            self.entriesDict[bytes(sessionID)] = session
-            self.entriesList[self.lastIndex] = (bytes(sessionID), time.time())
+            entry = (bytes(sessionID), time.time())
+            self.entriesDict[entry[0]] = session
+            self._entryTimes[entry[0]] = entry
+            self.entriesList[self.lastIndex] = entry
             self.lastIndex = (self.lastIndex+1) % len(self.entriesList)
 
             #If the cache is full, we delete the oldest element to make an
             #empty space
             if self.lastIndex == self.firstIndex:
-                del(self.entriesDict[self.entriesList[self.firstIndex][0]])
+                self._remove(self.entriesList[self.firstIndex])
                 self.firstIndex = (self.firstIndex+1) % len(self.entriesList)
         finally:
             self.lock.release()
+
+    def _remove(self, entry):
+        """Drop the session of a list entry, unless the ID was stored again
+        later (then a newer list entry owns it)."""
+        if self._entryTimes.get(entry[0]) is entry:
+            del self._entryTimes[entry[0]]
+            del self.entriesDict[entry[0]]
 
     #Delete expired items
     def _purge(self):
@@ -96,7 +110,7 @@ class SessionCache(object):
         index = self.firstIndex
         while index != self.lastIndex:
             if currentTime - self.entriesList[index][1] > self.maxAge:
-                del(self.entriesDict[self.entriesList[index][0]])
+                self._remove(self.entriesList[index])
                 index = (index+1) % len(self.entriesList)
             else:
                 break
